@@ -280,3 +280,98 @@ def molden_orbitals_at(table, points):
     gshells = [(ic, [l], [k], e, [[c] for c in co]) for ic, l, k, e, co in table["shells"]]
     bv = gto.eval_basis(gshells, vendors.MOLDEN, table["xyz"], points)
     return np.array([m[3] for m in table["mos"]]) @ bv
+
+
+# ---- Molekel (.mkl) -------------------------------------------------------------------------------------------
+
+def read_molekel(text):
+    """Same table as read_molden: atoms in bohr, shells, orbitals with spin labels, occupations, energies."""
+    from ref import units, vendors
+
+    blocks, cur = {}, None
+    for ln in text.splitlines():
+        s = ln.strip()
+        if s.startswith("$") and not s.startswith("$$") and s.upper() != "$END":
+            cur = s.upper()
+            blocks[cur] = []
+        elif s.upper() == "$END":
+            cur = None
+        elif cur is not None:
+            blocks[cur].append(ln)
+    for need in ("$COORD", "$BASIS", "$COEFF_ALPHA", "$OCC_ALPHA"):
+        if need not in blocks:
+            raise Unsupported(f"missing {need}")
+    atoms = []
+    for ln in blocks["$COORD"]:
+        w = ln.split()
+        if len(w) >= 4:
+            atoms.append((int(w[0]), [float(x) * units.angstrom for x in w[1:4]]))
+    shells, ic, i, body = [], 0, 0, blocks["$BASIS"]
+    ncount = {}
+    for l in range(6):
+        ncount[(l, (l + 1) * (l + 2) // 2)] = "c"
+        if l >= 2:
+            ncount[(l, 2 * l + 1)] = "p"
+    while i < len(body):
+        w = body[i].split()
+        if not w:
+            i += 1
+            continue
+        if w[0] == "$$":
+            ic += 1
+            i += 1
+            continue
+        nfun, label = int(w[0]), w[1].lower()
+        l = vendors.ANGMOM.index(label)
+        kind = ncount.get((l, nfun))
+        if kind is None:
+            raise Unsupported(f"{nfun} functions for a {label} shell")
+        exps, coefs = [], []
+        i += 1
+        while i < len(body):
+            w = body[i].split()
+            if len(w) != 2:
+                break
+            try:
+                a, c = _f(w[0]), _f(w[1])
+            except ValueError:
+                break
+            if w[1].isalpha():
+                break
+            exps.append(a)
+            coefs.append(c)
+            i += 1
+        shells.append((ic, l, kind, exps, coefs))
+    nbasis = sum(vendors.nfunc(l, k) for _ic, l, k, _e, _c in shells)
+
+    def coeff_block(lines):
+        orbs = []  # (sym, energy, vector)
+        rows = [ln.split() for ln in lines if ln.split()]
+        k = 0
+        while k < len(rows):
+            syms, ens = rows[k], [_f(x) for x in rows[k + 1]]
+            vecs = np.array([[_f(x) for x in rows[k + 2 + r]] for r in range(nbasis)])
+            for j in range(len(ens)):
+                orbs.append((syms[j] if j < len(syms) else None, ens[j], vecs[:, j]))
+            k += 2 + nbasis
+        return orbs
+
+    def occ_block(lines):
+        return [_f(x) for ln in lines for x in ln.split()]
+
+    mos, spins, syms = [], [], []
+    alpha = coeff_block(blocks["$COEFF_ALPHA"])
+    occa = occ_block(blocks["$OCC_ALPHA"])
+    has_beta = "$COEFF_BETA" in blocks
+    for (sym, en, vec), occ in zip(alpha, occa):
+        mos.append((len(mos) + 1, occ, en, vec))
+        spins.append("alpha" if has_beta else "both")
+        syms.append(sym)
+    if has_beta:
+        for (sym, en, vec), occ in zip(coeff_block(blocks["$COEFF_BETA"]), occ_block(blocks["$OCC_BETA"])):
+            mos.append((len(mos) + 1, occ, en, vec))
+            spins.append("beta")
+            syms.append(sym)
+    cm = [ln.split() for ln in blocks.get("$CHAR_MULT", []) if ln.split()]
+    return {"atnums": [a[0] for a in atoms], "xyz": np.array([a[1] for a in atoms]), "shells": shells, "mos": mos, "spins": spins, "syms": syms,
+            "charge": int(cm[0][0]) if cm else None, "mult": int(cm[0][1]) if cm else None}
